@@ -426,12 +426,10 @@ fn option_grid(rng: &mut Rng, n: usize) -> Vec<OptRec> {
     out
 }
 
-pub fn gen_history_cases(prop: &str, tier: &str, seed: u64) -> Vec<HistoryCase> {
-    let mut rng = Rng::new(seed ^ hash_str(prop));
-    let n = n_cases(prop, tier);
+pub fn gen_history_cases(prop: &str, tier: &str, rng: &mut Rng, start: usize, n: usize) -> Vec<HistoryCase> {
     let thorough = tier == "thorough";
     let mut out = Vec::with_capacity(n);
-    for i in 0..n {
+    for i in start..start + n {
         let mut r = rng.fork();
         match prop {
             "C07" | "C08" => {
@@ -541,10 +539,25 @@ pub fn check_history(sum: &mut Summary) {
             });
         }
     }
-    let mut cases = load_corpus_history(&prop);
+    let cases = load_corpus_history(&prop);
     sum.extra.insert("corpus_cases".into(), json!(cases.len()));
-    cases.extend(gen_history_cases(&prop, &tier, seed));
     run_cases(sum, cases, 3);
+    // generated cases, in chunks (memory stays bounded for the thorough tier)
+    let mut rng = Rng::new(seed ^ hash_str(&prop));
+    let n = n_cases(&prop, &tier);
+    let chunk = 20_000;
+    let mut done = 0;
+    while done < n {
+        if let Some(d) = sum.deadline {
+            if Instant::now() > d {
+                break;
+            }
+        }
+        let m = chunk.min(n - done);
+        let cases = gen_history_cases(&prop, &tier, &mut rng, done, m);
+        run_cases(sum, cases, 3);
+        done += m;
+    }
 }
 
 /// the character functions over the whole supported alphabet and convert_string on small strings / pool names:
@@ -661,7 +674,16 @@ pub fn check_c06(sum: &mut Summary) {
     sum.extra.insert("corpus_cases".into(), json!(cases.len()));
     let mut rng = Rng::new(sum.seed ^ 0xC06);
     let n = if thorough { 60_000 } else { 1_500 };
-    for _ in 0..n {
+    for i in 0..n {
+        if i % 2000 == 1999 {
+            let batch = std::mem::take(&mut cases);
+            run_cases(sum, batch, 3);
+            if let Some(d) = sum.deadline {
+                if Instant::now() > d {
+                    break;
+                }
+            }
+        }
         let mut r = rng.fork();
         let mut cfg = GenCfg::quick();
         cfg.max_docs = 5;
@@ -914,15 +936,25 @@ pub fn check_compile(sum: &mut Summary, sxr: bool) {
 
 // ---- C11 rewrites -----------------------------------------------------------------------------
 
-fn rewrite_items(rng: &mut Rng, items: &mut Vec<Item>, kind: usize, touched: &mut usize, in_root: bool) {
+fn rewrite_items(rng: &mut Rng, items: &mut Vec<Item>, kind: usize, touched: &mut usize, in_root: bool, ws_is_text: bool) {
     let mut i = 0;
     while i < items.len() {
         match kind {
             // new values / new text
             0 => {
-                if let Item::Text(_) = &items[i] {
-                    items[i] = Item::Text(rng.pick(&["other", "42", "z z", "&"]).to_string());
-                    *touched += 1;
+                match &items[i] {
+                    Item::Text(_) => {
+                        // non-empty text replaced by other non-empty content (white space is content too unless the reader trims)
+                        let choices: &[&str] = if ws_is_text { &["other", "42", "z z", "&", " ", "\n  "] } else { &["other", "42", "z z", "&"] };
+                        let t = rng.pick(choices).to_string();
+                        items[i] = if t.trim().is_empty() { Item::Ws(t) } else { Item::Text(t) };
+                        *touched += 1;
+                    }
+                    Item::Ws(_) if ws_is_text && rng.chance(1, 2) => {
+                        items[i] = Item::Text(rng.pick(&["x", "was blank"]).to_string());
+                        *touched += 1;
+                    }
+                    _ => {}
                 }
             }
             // text <-> CDATA
@@ -935,6 +967,10 @@ fn rewrite_items(rng: &mut Rng, items: &mut Vec<Item>, kind: usize, touched: &mu
                         }
                         Item::CData(_) => {
                             items[i] = Item::Text("was cdata".into());
+                            *touched += 1;
+                        }
+                        Item::Ws(t) if ws_is_text => {
+                            items[i] = Item::CData(t.clone());
                             *touched += 1;
                         }
                         _ => {}
@@ -961,7 +997,7 @@ fn rewrite_items(rng: &mut Rng, items: &mut Vec<Item>, kind: usize, touched: &mu
             _ => {}
         }
         if let Item::Elem(n) = &mut items[i] {
-            rewrite_node(rng, n, kind, touched);
+            rewrite_node(rng, n, kind, touched, ws_is_text);
         }
         i += 1;
     }
@@ -971,7 +1007,7 @@ fn rewrite_items(rng: &mut Rng, items: &mut Vec<Item>, kind: usize, touched: &mu
     }
 }
 
-fn rewrite_node(rng: &mut Rng, n: &mut Node, kind: usize, touched: &mut usize) {
+fn rewrite_node(rng: &mut Rng, n: &mut Node, kind: usize, touched: &mut usize, ws_is_text: bool) {
     match kind {
         0 => {
             for a in n.attrs.iter_mut() {
@@ -988,13 +1024,13 @@ fn rewrite_node(rng: &mut Rng, n: &mut Node, kind: usize, touched: &mut usize) {
         _ => {}
     }
     let mut items = std::mem::take(&mut n.items);
-    rewrite_items(rng, &mut items, kind, touched, true);
+    rewrite_items(rng, &mut items, kind, touched, true, ws_is_text);
     n.items = items;
 }
 
-fn rewrite_doc(rng: &mut Rng, d: &Doc, kind: usize, touched: &mut usize) -> Doc {
+fn rewrite_doc(rng: &mut Rng, d: &Doc, kind: usize, touched: &mut usize, ws_is_text: bool) -> Doc {
     let mut out = d.clone();
-    rewrite_node(rng, &mut out.root, kind, touched);
+    rewrite_node(rng, &mut out.root, kind, touched, ws_is_text);
     match kind {
         2 => {
             if !out.prolog.iter().any(|i| matches!(i, Item::Decl(_))) && rng.chance(1, 2) {
@@ -1029,7 +1065,16 @@ pub fn check_c11(sum: &mut Summary) {
     let mut rng = Rng::new(sum.seed ^ 0xC11);
     let n = if thorough { 100_000 } else { 2_500 };
     let names = ["new-values", "text<->cdata", "insert-misc", "remove-misc", "empty-element-spelling", "expand_empty_elements", "buffer-capacity"];
-    for _ in 0..n {
+    for i in 0..n {
+        if i % 2000 == 1999 {
+            let batch = std::mem::take(&mut cases);
+            run_cases(sum, batch, 3);
+            if let Some(d) = sum.deadline {
+                if Instant::now() > d {
+                    break;
+                }
+            }
+        }
         let mut r = rng.fork();
         let mut cfg = GenCfg::quick();
         cfg.max_docs = 3;
@@ -1056,7 +1101,7 @@ pub fn check_c11(sum: &mut Summary) {
                     touched = 1;
                 }
                 _ => {
-                    let docs: Vec<Doc> = h.docs.iter().map(|d| rewrite_doc(&mut r, d, k, &mut touched)).collect();
+                    let docs: Vec<Doc> = h.docs.iter().map(|d| rewrite_doc(&mut r, d, k, &mut touched, !rcfg.trim_text)).collect();
                     b.docs = cases2::docs_of(&docs);
                 }
             }
